@@ -787,8 +787,12 @@ fn trim_tokens(tokens: &Vec<LexerToken>) -> &[LexerToken] {
         }
     }
 
+    // annotations create no nodes either, a last token followed only by them is still the last token
     for token in tokens.iter().rev() {
-        if token.get_token_type() == TokenType::Whitespace || token.get_token_type() == TokenType::Subexpression {
+        if matches!(
+            token.get_token_type(),
+            TokenType::Whitespace | TokenType::Subexpression | TokenType::Annotation | TokenType::LineAnnotation
+        ) {
             end -= 1;
         } else {
             break;
